@@ -1,0 +1,42 @@
+//go:build verif
+
+// Contracts (machine-checked by /verif/engine, see /verif/DESIGN.md). Comment-only file.
+package reload
+
+// ---- C38: the reload callback runs for new content only (safety half) ---------------------------------------------
+// The watch loop's state lives in captured variables: `evaluated` (the content the callback last saw), `observed`
+// (the content last seen on disk), `debounce` (armed or nil). The closures below are, in source order:
+// $1 stopDebounce, $2 schedule, $3 reconcile, $4 bindWatcher, $5 closeWatcher, $6 runCallback.
+// runCallback: the callback runs only for a candidate that differs from what was last evaluated, and that candidate is
+// recorded as evaluated BEFORE the callback runs - so equal content never runs it again, whatever the callback returns.
+//@ func runWatchLoop$6
+//@   props C38
+//@   at-call dyn.cb as run: assert [never-for-content-equal-to-the-last-evaluated] (candidate.state != old(evaluated.state) || candidate.sum != old(evaluated.sum)) && evaluated.state == candidate.state && evaluated.sum == candidate.sum
+//@   ensures [equal-content-is-skipped] candidate.state == old(evaluated.state) && candidate.sum == old(evaluated.sum) ==> !called(run)
+//@   ensures [new-content-runs-once] (candidate.state != old(evaluated.state) || candidate.sum != old(evaluated.sum)) ==> called(run)
+// reconcile: decided on the file's fingerprint alone (no event payload): unchanged content schedules nothing; changed
+// content is recorded as observed and arms the debounce.
+//@ func runWatchLoop$3
+//@   props C38
+//@   at-call fingerprint as fp: assert streq(arg0, configPath)
+//@   at-call dyn.schedule as arm: assert [armed-only-for-changed-content] called(fp) && (res(fp).state != old(observed.state) || res(fp).sum != old(observed.sum)) && observed.state == res(fp).state && observed.sum == res(fp).sum
+//@   ensures [unchanged-content-schedules-nothing] called(fp) && (res(fp).state == old(observed.state) && res(fp).sum == old(observed.sum) ==> !called(arm))
+//@   ensures [changed-content-is-scheduled] called(fp) && (res(fp).state != old(observed.state) || res(fp).sum != old(observed.sum) ==> called(arm))
+// schedule re-arms a single timer (stop, reset, bind its channel).
+//@ func runWatchLoop$2
+//@   props C38
+//@   at-call dyn.stopDebounce as stop
+//@   at-call Reset as reset: assert called(stop) && arg0 == debounceTimer && arg1 == debounceDuration
+//@   ensures [armed] called(reset)
+// The fingerprint: SHA-256 of the whole content when it could be read; "missing" and "unreadable" are their own states.
+//@ func fingerprint
+//@   props C38
+//@   at-call openFingerprintFile as op: assert streq(arg0, path)
+//@   at-call ReadAll as rd: assert called(op) && res(op, 1) == nil
+//@   at-call Sum256 as h: assert [hash-of-the-whole-content] called(rd) && res(rd, 1) == nil && ref(arg0) == ref(res(rd, 0)) && len(arg0) == len(res(rd, 0))
+//@   ensures [readable-content-is-state-1] called(h) ==> result.state == 1 && result.sum == res(h)
+//@   ensures [unreadable-is-never-state-1] !called(h) ==> result.state == 2 || result.state == 3
+// Rejection codes are confined to the documented alphabet.
+//@ func sanitizeRejectionCode
+//@   props C38
+//@   ensures [closed-alphabet] streq(result, "read_failed") || streq(result, "parse_failed") || streq(result, "invalid") || streq(result, "unsupported") || streq(result, "prepare_failed") || streq(result, "rejected")
